@@ -68,12 +68,13 @@ def run(pid, tier, seed):
             for k in (0, 3):
                 for overwrite in (False, True):
                     strategy = S.IGNORE if overwrite else S.OMIT
-                    stub_text = build_module_stubs_from_traces(applygen.traces_for(mod, k), k, strategy)[name].render()
+                    plain = si % 3 == 2          # every third source: a stub over builtins only, i.e. without any import
+                    stub_text = build_module_stubs_from_traces(applygen.traces_for(mod, k, plain), k, strategy)[name].render()
                     stub_tree = ast.parse(stub_text)
                     stub_ann = applygen.annotations_of(stub_tree)
                     for confine in ((False, True) if pid == "C15" else (True,)):
                         chk.evaluations += 1
-                        case = {"source": name, "k": k, "overwrite": overwrite, "confine": confine, "spec": spec}
+                        case = {"source": name, "k": k, "overwrite": overwrite, "confine": confine, "spec": spec, "plain_stub": plain}
                         try:
                             out = apply_stub_using_libcst(stub_text, src, overwrite, confine)
                         except Exception as e:
@@ -267,7 +268,13 @@ def check16(chk, case, fx, name, src, orig, stub_tree, out, res, base_result, re
                 tc_names.append(key)
             elif not p:
                 top_names.append(key)
+    # names the result actually uses outside import statements (annotations, base classes, ...): an import the stub lists but
+    # nothing needs (get_imports_for_signature adds Optional for every None default, annotated or not) need not appear
+    used = {n.id for n in ast.walk(res) if isinstance(n, ast.Name)} | \
+           {w for n in ast.walk(res) if isinstance(n, ast.Constant) and isinstance(n.value, str) for w in __import__("re").findall(r"[A-Za-z_]\w*", n.value)}
     for i in new:
+        if (i[2] or i[1] or i[0].split(".")[0]) not in used:
+            continue
         movable = i[0] != "typing" and not (i[0] == "mypy_extensions" and i[1] == "TypedDict")
         if movable and (i not in tc_names or i in top_names):
             chk.fail("new-import-not-confined", dict(case, item=list(i), result=out[:1500]))
